@@ -1346,6 +1346,9 @@ func (d *vfDriver) secondEpochBody(w2 *vWorld, steps []vfStep, ctx string) strin
 		}
 		d.runBasic(w2, &st)
 		vfDrain(w2.slock.aof)
+		// the monitor's bookkeeping of a hold starts at its first snapshot: a hold that JOINS a key (and inherits the
+		// persistence delay of the oldest holder, finding A26) must be seen there before that holder leaves
+		d.emitLive(w2, "live")
 	}
 	vfDrain(w2.slock.aof)
 	d.emitLive(w2, "pre2")
